@@ -48,3 +48,25 @@ Theorem C19_iotlb_empty_refused : forall v2 iova size uaddr perm,
   iotlb_parse v2 (iotlb_img v2 iova size uaddr perm 0) = VS "InvalidIotlbMsg".
 Proof. exact iotlb_empty_refused. Qed.
 Print Assumptions C19_iotlb_empty_refused.
+
+(* ring-configuration validity over the expressions REGENERATED from the source on this run (Gen.GenKValid): the size test
+   of both is_valid bodies is "over the maximum, zero, or not a power of two"; the ring ends checked against guest
+   memory are 16 q, 6 + 2 q and 6 + 8 q bytes past the three addresses; a log flag without a log address is invalid and
+   the log address handed to the kernel is the caller's exactly when the flag is set and an address was given *)
+From VV Require Import Gen.GenKValid.
+Theorem C19_ring_size_test_regenerated : forall q mx,
+  kv_size_bad q mx = (mx <? q) || (q =? 0) || negb (pow2 q) /\ kvd_size_bad q mx = kv_size_bad q mx.
+Proof. intros q mx. split; [apply kv_size_bad_spec | apply kvd_size_bad_same]. Qed.
+Print Assumptions C19_ring_size_test_regenerated.
+Theorem C19_ring_extents_regenerated : forall q,
+  kv_desc_table_size q = 16 * q /\ kv_avail_ring_size q = 6 + 2 * q /\ kv_used_ring_size q = 6 + 8 * q.
+Proof. exact kv_ring_sizes. Qed.
+Print Assumptions C19_ring_extents_regenerated.
+Theorem C19_log_address_rules_regenerated : forall fl has v,
+  kv_log_invalid fl has = negb (N.land fl 1 =? 0) && negb has
+  /\ kv_log_addr fl has v = (if negb (N.land fl 1 =? 0) && has then v else 0).
+Proof. exact kv_log_rules. Qed.
+Print Assumptions C19_log_address_rules_regenerated.
+Theorem C19_validity_code_shape : kv_shape_ok = true.
+Proof. exact kv_shape_ok_true. Qed.
+Print Assumptions C19_validity_code_shape.
